@@ -48,7 +48,7 @@ class LazyLoadingTrees:
 
         super().__init__()
         self.swcs = list(swcs)
-        self.trees = [None for _ in swcs]
+        self.trees = [None for _ in self.swcs]
         self.kwargs = kwargs
 
     def __getitem__(self, key: int, /) -> Tree:
@@ -240,8 +240,9 @@ class Populations:
     def __init__(
         self, populations: Iterable[Population], labels: Optional[Iterable[str]] = None
     ) -> None:
+        populations = list(populations)
         self.len = min(len(p) for p in populations)
-        self.populations = list(populations)
+        self.populations = populations
 
         labels = list(labels) if labels is not None else ["" for i in populations]
         assert len(labels) == len(
@@ -302,6 +303,7 @@ class Populations:
             Forwarding to `Population`.
         """
 
+        roots = list(roots)
         fs = [Population.find_swcs(d, ext=ext, relpath=True) for d in roots]
         if intersect:
             inter = list(reduce(lambda a, b: set(a).intersection(set(b)), fs))
